@@ -13,7 +13,7 @@ import (
 )
 
 func init() {
-	register(&Rule{ID: "MAT-1", Props: []string{"C01", "C02", "C10"}, Floor: 5,
+	register(&Rule{ID: "MAT-1", Props: []string{"C01", "C02", "C10", "C19"}, Floor: 5,
 		Doc: "the argument vector is immutable during backtracking: no element store, copy destination or append base is a []string that is not freshly made in the same function", Run: mat1})
 	register(&Rule{ID: "MAT-2", Props: []string{"C02", "C09", "C13", "C15"}, Floor: 3,
 		Doc: "every string recorded into the context is a sub-slice of a command-line token or the literal \"true\"; the positional matcher records exactly args[0] and returns args[1:]", Run: mat2})
